@@ -14,7 +14,7 @@ RULE = ("1..4 TPDOs with generated mappings (1..8 objects of 1/2/3/4 bytes, <= 8
         "(inhibit, event, trigger offset) in {0..6}^3 x 10 ticks (every relative order and coincidence of trigger, inhibit end and event expiry); non-trivial = history with >= 1 deferred (inhibited) transmission, event "
         "expiry or n-th-SYNC transmission; distinct by script")
 ASSUMPTIONS = ["times are whole numbers of ticks (10 kHz timer: 100 us = 1 tick)", "first event-timer expiry after activation accepted in [E, E+CO_TPDO_N-1]",
-               "an object is mapped at most once per TPDO; RTR and transmission types 0, 241..253 are not generated",
+               "RTR and transmission types 0, 241..253 are not generated",
                "the inhibit time is only changed while the node is not OPERATIONAL"]
 VARIANTS = ["asan"]
 
@@ -180,6 +180,8 @@ def gen_world(rng, sweep=None):
             if total + bits // 8 > 8:
                 continue
             maps.append((idx, sub, bits)); total += bits // 8
+            if sweep is None and rng.random() < 0.12 and total + bits // 8 <= 8:
+                maps.append((idx, sub, bits)); total += bits // 8        # the same object in two slots of one TPDO: one change, one transmission
         if sweep is not None:
             typ, inh, ev = 254, sweep[0], sweep[1]
             maps = [(0x2100, 0, 8 * objs[(0x2100, 0)][0])]
